@@ -74,6 +74,14 @@ def run_tlc(module, cfg_text, data=None, workers=None, extra_args=(), timeout=36
             f.write(content)
     with open(os.path.join(d, module + '.cfg'), 'w') as f:
         f.write(cfg_text)
+    keep = os.environ.get('VERIF_KEEP_DATA')
+    if keep and data is not None:       # self-test of the binding (harness/selftest.py): keep a sample of what TLC was given
+        k = os.path.join(keep, (tag or module) + '-' + os.path.basename(d)[-6:])
+        os.makedirs(k, exist_ok=True)
+        with open(os.path.join(k, 'data.json'), 'w') as f:
+            json.dump(data[:200], f, separators=(',', ':'))
+        with open(os.path.join(k, 'meta.json'), 'w') as f:
+            json.dump({'module': module, 'cfg': cfg_text, 'files': files or {}, 'n': len(data[:200])}, f)
     cmd = ['tlc', '-workers', str(workers or WORKERS), '-metadir', os.path.join(d, 'meta'), '-noGenerateSpecTE',
            '-config', module + '.cfg', *extra_args, module + '.tla']
     env = dict(os.environ)
